@@ -151,9 +151,7 @@ theorem fifo_dataCore (q : Quirks) (now : Nat) (c cid : Conn) (s : State) (cmd :
 theorem fifo_dataCmd (q : Quirks) (now : Nat) (c cid : Conn) (s : State) (cmd : Cmd) (k : Key) :
     FifoStep (lineOf s k) (lineOf (dataCmd q now c cid s cmd) k) := by
   unfold dataCmd
-  split
-  · exact fifo_dataCore q now c cid s cmd k
-  · exact (fifo_dataCore q now c cid s cmd k).trans (fifo_drain q _ k)
+  exact (fifo_dataCore q now c cid s cmd k).trans (fifo_drain q _ k)
 
 theorem fifo_serveKey (q : Quirks) (k' k : Key) : ∀ n s, FifoStep (lineOf s k) (lineOf (serveKey q k' n s) k) := by
   intro n
@@ -163,7 +161,9 @@ theorem fifo_serveKey (q : Quirks) (k' k : Key) : ∀ n s, FifoStep (lineOf s k)
     intro s
     simp only [serveKey]
     split
-    · exact ((FifoStep.of_eq (lineOf_notify k' k s)).trans (fifo_wakeOne q _ k)).trans (ih _)
+    · split
+      · exact ((FifoStep.of_eq (lineOf_notify k' k s)).trans (fifo_iter (fifo_wakeOne q · k) _ _)).trans (ih _)
+      · exact ((FifoStep.of_eq (lineOf_notify k' k s)).trans (fifo_wakeOne q _ k)).trans (ih _)
     · exact .refl _
 
 theorem fifo_serveKeys (q : Quirks) (k : Key) (ks : List Key) : ∀ s, FifoStep (lineOf s k) (lineOf (serveKeys q ks s) k) := by
@@ -262,6 +262,14 @@ theorem fifo_step (q : Quirks) (s : State) (e : Event) (k : Key) :
       refine lineOf_sublist (s := s) ?_ ?_ k
       · exact List.Sublist.refl _
       · exact List.filter_sublist
+    · exact .refl _
+  | kill c =>
+    simp only [step]; split
+    · exact .of_eq (lineOf_setConn ..)
+    · exact .refl _
+  | hangupDirty c =>
+    simp only [step]; split
+    · exact .of_eq (lineOf_setConn ..)
     · exact .refl _
 
 theorem fifo_runFrom (q : Quirks) (k : Key) (evs : List Event) :
